@@ -63,10 +63,26 @@ def _dw_case(case):
     config, history = case["config"], case["history"]
     comps, n = FUNCS[config["func"]]
     key = {"strategy": "dimension-wise"}
-    r = dw.build(config, history, comps, n)
+    store = {}
+    steps = []
+
+    def observer(run):
+        # at EVERY evaluation (a stop of the run, had the limits been smaller): the public points and combined weights must reproduce
+        # the value the operation reports at that moment
+        P, W = run.sa.get_points_and_weights()
+        pw = np.zeros(n)
+        for p, ww in zip(P, W):
+            pw += ww * np.asarray(run.op.f.eval(tuple(p)), dtype=float)
+        steps.append((np.array(run.op.get_result(), dtype=float).copy(), pw, run.sa.get_total_num_points()))
+    r = dw.build(config, history, comps, n, observer=observer, perform_kwargs={"solutions_storage": store})
     sa, op = r.sa, r.op
     res = np.array(r.result[3], dtype=float)
     fails = []
+    for k, (val, pw, npts) in enumerate(steps):
+        if not _close(pw, val, max(1.0, float(np.max(np.abs(val))))):
+            fails.append(fail("points_and_weights_reproduce_result", "evaluation %d of %d: sum w f(p) = %r, reported %r" % (k, len(steps), pw, val), key))
+            break
+    fails += _storage_failures(store, steps, key)
     fresh, mag = _dw_fresh_sum(sa, op, config)
     if not _close(res, fresh, mag):
         fails.append(fail("result_equals_fresh_component_sum", "reported %r, fresh component sum %r" % (res, fresh), key))
@@ -94,6 +110,23 @@ def _dw_case(case):
     return out
 
 
+def _storage_failures(store, steps, key):
+    """solutions_storage must hold, per number of points, the combined value reported at THAT evaluation"""
+    out = []
+    by_points = {}
+    for val, _, npts in steps:
+        by_points[npts] = val          # a later evaluation with the same point count overwrites, as in the library
+    for npts, val in by_points.items():
+        got = store.get(npts)
+        if got is None:
+            out.append(fail("solutions_storage", "no stored solution for %d points (keys %r)" % (npts, sorted(store)), key))
+            break
+        if not _close(np.asarray(got, dtype=float), val, max(1.0, float(np.max(np.abs(val))))):
+            out.append(fail("solutions_storage", "stored solution for %d points is %r, the value reported at that evaluation was %r" % (npts, np.asarray(got), val), key))
+            break
+    return out
+
+
 # ------------------------------------------------------------------ extend-split
 def _es_fresh_sum(sa, op, config):
     g = es.make_grid(config, np.array(sa.a, dtype=float), np.array(sa.b, dtype=float))
@@ -117,10 +150,18 @@ def _es_case(case):
     config, history = case["config"], case["history"]
     comps, n = FUNCS[config["func"]]
     key = {"strategy": "extend-split"}
-    r = es.build(config, history, comps, n)
+    store = {}
+    r = es.build(config, history, comps, n, perform_kwargs={"solutions_storage": store})
     sa, op = r.sa, r.op
     res = np.array(r.result[3], dtype=float)
     fails = []
+    fails += _storage_failures(store, [(v, None, p) for v, p in r.steps], key)
+    # frequent recalculation (all areas re-evaluated from scratch every 2 refinements) must not change the reported value
+    if history:
+        r3 = es.build(config, history, comps, n, perform_kwargs={"recalculate_frequently": True}, recalc_every=2)
+        res3 = np.array(r3.result[3], dtype=float)
+        if not _close(res3, res, max(1.0, float(np.max(np.abs(res))))):
+            fails.append(fail("recalculate_frequently_changes_result", "without %r, with recalculate_frequently (every 2 refinements) %r" % (res, res3), key))
     fresh, mag, per_area = _es_fresh_sum(sa, op, config)
     if not _close(res, fresh, mag):
         fails.append(fail("result_equals_fresh_component_sum", "reported %r, fresh per-area component sum %r" % (res, fresh), key))
